@@ -559,6 +559,7 @@ func converseCheck(run *core.Run, s string) {
 }
 
 func runC09(run *core.Run) {
+	run.Level = "fault_enumeration"
 	run.Rule = "G2 valid ASTs x catalogue of 12 injection kinds (mixed operators in 8 patterns, direct assignment at operand position >=1 and inside a later parenthesis, empty restriction list in 2 spellings, wildcard+relation in 2 spellings, duplicate relation x 6 variants, duplicate condition, duplicate parameter, extend in a model, double extend, both/no header, 5 bad container types) x injection sites (random in quick, every site of every kind for a share of the ASTs) x layouts; each text must be rejected with nil model by TransformDSLToProto, TransformModularDSLToProto and TransformDSLToJSON; plus the converse on accepted G4 mutants (declarations counted on the real lexer's token stream vs. the model); non-trivial = rejected injected text; distinct by text"
 	runInjections(run, run.N(5000, 60000), run.N(300, 6000))
 	corpus := gen.Corpus()
